@@ -328,10 +328,38 @@ fn dispatch(program_id: &Pubkey, accounts: &[AccountInfo], data: &[u8]) -> Progr
         system_process(accounts, data)
     } else if *program_id == ATA_PROGRAM_ID {
         ata_process(accounts, data)
+    } else if data.starts_with(&PROXY_MAGIC) {
+        proxy_process(accounts, data)
     } else {
         latch_fault(Fault::Runtime(format!("UnsupportedProgram({})", program_id)));
         Err(ProgramError::IncorrectProgramId)
     }
+}
+
+// ---------------------------------------------------------------------------------------------
+// CPI proxy (test-only): ANY program id that is not one of the executable programs above acts as a
+// proxy when its instruction data starts with `PROXY_MAGIC`:
+//   data     = PROXY_MAGIC (8) ‖ callee program id (32) ‖ callee instruction data
+//   accounts = the callee's accounts in order, followed by the callee program account
+// It forwards with `invoke`, so the callee runs at stack height 2 while the instructions sysvar
+// still shows the proxy's program id at the current index — exactly what a third-party program
+// CPI-ing into marginfi looks like.
+// ---------------------------------------------------------------------------------------------
+
+pub const PROXY_MAGIC: [u8; 8] = *b"SIMPROXY";
+
+fn proxy_process(accounts: &[AccountInfo], data: &[u8]) -> ProgramResult {
+    if data.len() < 40 || accounts.is_empty() {
+        return Err(ProgramError::InvalidInstructionData);
+    }
+    let callee = Pubkey::new_from_array(data[8..40].try_into().unwrap());
+    let n = accounts.len() - 1;
+    let metas: Vec<AccountMeta> = accounts[..n]
+        .iter()
+        .map(|a| AccountMeta { pubkey: *a.key, is_signer: a.is_signer, is_writable: a.is_writable })
+        .collect();
+    let ix = Instruction { program_id: callee, accounts: metas, data: data[40..].to_vec() };
+    solana_program::program::invoke(&ix, accounts)
 }
 
 // ---------------------------------------------------------------------------------------------
@@ -994,7 +1022,7 @@ impl World {
         sysvar_data: &[u8],
         touched: &mut BTreeSet<Pubkey>,
     ) -> Result<(), ExecError> {
-        if !is_executable_program(&ix.program_id) {
+        if !is_executable_program(&ix.program_id) && !ix.data.starts_with(&PROXY_MAGIC) {
             // compute budget, jupiter, any filler program: successful no-op
             return Ok(());
         }
